@@ -109,10 +109,13 @@ def fmtMap (m : IMap) : String :=
 def fmtEvent (ev : Event) : List String :=
   ("ev " ++ toString ev.key ++ " " ++ exchName ev.exch ++ " " ++ toString ev.time) ::
   match ev.kind with
-  | .trade p a s => ["trade " ++ fmtRat p ++ " " ++ fmtRat (absR a) ++ " " ++ sideStr s, "amt " ++ fmtRat a]
-  | .l1 b a => ["l1 " ++ fmtLevel b ++ " " ++ fmtLevel a]
-  | .l2 bs as => ["l2 b " ++ fmtLevels bs ++ " a " ++ fmtLevels as]
-  | .liq p q s => ["liq " ++ fmtRat p ++ " " ++ fmtRat q ++ " " ++ sideStr s]
+  -- `dk <name> 1`: converted to `MarketEvent<_, DataKind>` (event.rs `From` impls) the event is of its own
+  -- kind (`DataKind::kind_name`) and the accessor of that kind hands back the same event
+  | .trade p a s => ["trade " ++ fmtRat p ++ " " ++ fmtRat (absR a) ++ " " ++ sideStr s, "amt " ++ fmtRat a,
+                     "dk public_trade 1"]
+  | .l1 b a => ["l1 " ++ fmtLevel b ++ " " ++ fmtLevel a, "dk l1 1"]
+  | .l2 bs as => ["l2 b " ++ fmtLevels bs ++ " a " ++ fmtLevels as, "dk l2 1"]
+  | .liq p q s => ["liq " ++ fmtRat p ++ " " ++ fmtRat q ++ " " ++ sideStr s, "dk liquidation 1"]
 
 structure St where
   pair : Option Pair := none
@@ -181,7 +184,8 @@ def specEvents (p : Pair) (key : Nat) (msg : Msg) : List String :=
     ("nev " ++ toString msg.items.length) ::
     (msg.items.map fun it =>
       let st := specTrade p.exch it
-      [hdr st.time, "trade " ++ fmtRat st.price ++ " " ++ fmtRat st.qty ++ " " ++ sideStr st.side]).flatten
+      [hdr st.time, "trade " ++ fmtRat st.price ++ " " ++ fmtRat st.qty ++ " " ++ sideStr st.side,
+       "dk public_trade 1"]).flatten
   | .orderBooksL1 =>
     match msg.items with
     | [b, a] =>
@@ -190,18 +194,20 @@ def specEvents (p : Pair) (key : Nat) (msg : Msg) : List String :=
       let side (it : Item) : String :=
         if it.price ≠ 0 then fmtRat it.price ++ " " ++ fmtRat it.amount
         else "{none|0} {none|" ++ fmtRat it.amount ++ "}"
-      ["nev 1", hdr b.time, "l1 " ++ side b ++ " " ++ side a]
+      ["nev 1", hdr b.time, "l1 " ++ side b ++ " " ++ side a, "dk l1 1"]
     | _ => []
   | .orderBooksL2 =>
     match msg.items with
     | it :: _ =>
       ["nev 1", hdr it.time,
        "l2 b " ++ fmtLevels ((msg.items.filter (·.side = .buy)).map fun i => (i.price, i.amount)) ++
-       " a " ++ fmtLevels ((msg.items.filter (·.side = .sell)).map fun i => (i.price, i.amount))]
+       " a " ++ fmtLevels ((msg.items.filter (·.side = .sell)).map fun i => (i.price, i.amount)),
+       "dk l2 1"]
     | [] => []
   | .liquidations =>
     match msg.items with
-    | [it] => ["nev 1", hdr it.time, "liq " ++ fmtRat it.price ++ " " ++ fmtRat it.amount ++ " " ++ sideStr it.side]
+    | [it] => ["nev 1", hdr it.time, "liq " ++ fmtRat it.price ++ " " ++ fmtRat it.amount ++ " " ++ sideStr it.side,
+               "dk liquidation 1"]
     | _ => []
 
 def spec : Drv SpecSt where
